@@ -254,7 +254,29 @@ Definition chk (c : schema * item * eres json) : bool :=
   | _, _ => false
   end.
 """
+DEFS_C = """
+(* (description, index of the document type, name components, the property held on the implementation) *)
+Definition guards (c : schema * nat * list str * bool) : option bool :=
+  let '(s, k, comps, held) := c in
+  match nth_error (doc_props s) k with
+  | None => None
+  | Some props =>
+      match resolve props [] comps with
+      | None => None
+      | Some (d, anc) =>
+          Some (wf_schema s && coherent s && walk_sane s && subfield_ok anc d && anchor_survives s anc &&
+                is_leaf_def d && forallb nodot comps && forallb nonempty_name comps)
+      end
+  end.
+(* the theorem C19_query_partial read on the implementation: guards => the property held *)
+Definition chk_sound (c : schema * nat * list str * bool) : bool :=
+  match guards c with Some g => negb g || snd c | None => false end.
+(* narrowness of the guards: the property held => the guards hold *)
+Definition chk_narrow (c : schema * nat * list str * bool) : bool :=
+  match guards c with Some g => g || negb (snd c) | None => false end.
+"""
 IMPORTS = "Base Decimal Tree Json EsSpecs EsCheck EsBuild Schema"
+IMPORTS_C = IMPORTS + " SchemaSpec SchemaProofs"
 
 
 # ------------------------------------------------------------------ independent oracle
@@ -264,7 +286,9 @@ def doc_types(schema):
     m = schema.get("mappings", {})
     if m.get("properties"):
         return [m["properties"]]
-    return [v.get("properties") or {} for k, v in m.items() if isinstance(v, dict)]
+    # (a falsy "properties" entry of the legacy layout is a document type without fields: skipped, so that the
+    # positions agree with Schema.doc_props)
+    return [v.get("properties") or {} for k, v in m.items() if isinstance(v, dict) and k != "properties"]
 
 
 def is_container(d):
@@ -457,6 +481,7 @@ def correspond(model_ok, res):
         schemas.append((gen_schema(r, odd), "odd" if odd else "plain"))
 
     cases_a, payload_a, cases_b, payload_b = [], [], [], []
+    cases_c, payload_c = [], []
     dist = {"schemas": {}, "layout": {"current": 0, "legacy": 0}, "leaves": 0, "sub_leaves": 0,
             "nested_depth": {}, "spelling": {"dotted": 0, "chain": 0}, "outcome": {"ok": 0, "exc": 0},
             "oracle": {"judged": 0, "held": 0, "F12": 0, "F12b": 0, "F12c": 0, "skipped_not_plain": 0,
@@ -496,7 +521,7 @@ def correspond(model_ok, res):
         is_plain = plain(schema)
         kinds = path_kinds(schema)
         b = ElasticsearchQueryBuilder(**opts)
-        for props in doc_types(schema):
+        for doc_index, props in enumerate(doc_types(schema)):
             for names, d, anc, is_sub in leaves(props):
                 if any((not nm) or any(ch in nm for ch in " :()\"'*?\\/+-~^[]{}!") for nm in names):
                     continue
@@ -537,6 +562,8 @@ def correspond(model_ok, res):
                     dist["expected"]["term" if exp["term"] else "match"] += 1
                     dist["expected"]["nested" if exp["nested"] else "bare"] += 1
                     why = judge(exp, outcome, word)
+                    cases_c.append("(%s, %d%%nat, %s, %s)" % (gs, doc_index, g_strs(names), lib.g_bool(why is None)))
+                    payload_c.append({"schema": snapshot, "query": q, "field": dotted, "held": why is None})
                     if why is None:
                         dist["oracle"]["held"] += 1
                         # exactness of the guards: the predicates of the findings on inputs where the property held
@@ -580,6 +607,27 @@ def correspond(model_ok, res):
         return res
     if len(cases_a) not in bad_a or len(cases_b) not in bad_b:
         res.model_error = "canary case not reported: the comparison is vacuous"
+    # the guards of C19_query_partial evaluated by Coq on every judged (description, leaf):
+    #   guards => the property held on the implementation (anything else contradicts the theorem or the model)
+    #   the property held => guards (narrowness; measured, reported in the distribution)
+    try:
+        canary_c = "(mkSchema None (mkMappings None []), 0%nat, [[97]%N], true)"     # nothing resolves: reported
+        bad_sound = lib.eval_cases("C19c", IMPORTS_C, DEFS_C, cases_c + [canary_c], "chk_sound", shard=80)
+        bad_narrow = lib.eval_cases("C19d", IMPORTS_C, DEFS_C, cases_c, "chk_narrow", shard=80)
+    except Exception as e:  # noqa
+        res.model_error = str(e)[-3000:]
+        return res
+    if len(cases_c) not in bad_sound:
+        res.model_error = "canary case not reported: the guard comparison is vacuous"
+    for i in bad_sound:
+        if i < len(cases_c):
+            res.disagreements.append(dict(payload_c[i], which="guards of C19_query_partial hold but the property "
+                                                               "failed on the implementation (or the leaf did not resolve)"))
+    dist["guards"] = {"evaluated": len(cases_c), "hold": len([1 for i, p in enumerate(payload_c)
+                                                              if p["held"] and i not in set(bad_narrow)]),
+                      "property_held_but_guard_false": len(bad_narrow),
+                      "first_held_but_guard_false": [payload_c[i] for i in bad_narrow[:3]]}
+    res.cases += len(cases_c)
     for i in bad_a:
         if i < len(cases_a):
             res.disagreements.append(dict(payload_a[i], which="analyzer methods"))
@@ -594,11 +642,14 @@ SPEC = {
     "targets": ["props/C19.vo"],
     "model_targets": ["model/Schema.vo", "model/SchemaSpec.vo", "model/EsBuild.vo"],
     "module": "C19",
-    "theorems": ["C19_builder_side", "C19_spellings_agree", "C19_query_refuted", "C19_nesting_refuted",
+    "theorems": ["C19_query_partial", "C19_nesting_partial", "C19_nested_fields",
+                 "C19_builder_side", "C19_spellings_agree", "C19_query_refuted", "C19_nesting_refuted",
                  "C19_typing_refuted", "C19_typing_partial", "C19_typing_walk_partial", "C19_subfield_typing_partial",
                  "C19_not_analyzed_fields", "C19_object_fields", "C19_nested_spellings", "C19_object_spellings"],
     "correspond": correspond,
-    "statement": "options m fed to the builder: both spellings of a mapped path give the same outcome, decided by "
+    "statement": "under executable guards (coherent, walk_sane, F12b guard subfield_ok, F12/F12c guard anchor_survives) "
+                 "a mapped leaf queried in either spelling is never refused and gives exactly the expected JSON "
+                 "(C19_query_partial, proved); options m fed to the builder: both spellings of a mapped path give the same outcome, decided by "
                  "not_analyzed_fields / the nested and object prefix sets (proved for every description); the clause "
                  "is term-level iff the walked field is not analysed text (proved on coherent descriptions; "
                  "multi-fields under the F12b guard); the full statement, its nesting clause and its typing clause "
@@ -612,8 +663,9 @@ SPEC = {
         "correspondence (harness/c19.py) on every run: all seven methods + builder outcome per leaf and spelling",
         "builder model coq/model/EsBuild.v, EsCheck.v, EsSpecs.v (owned by C06/C07, validated by their correspondence)",
         "gen/translate.py: visitor method tables, class MROs, E-item class constants",
-        "the nesting clause under the guard anchor_registered is established by the harness oracle only "
-        "(independent descent of the raw mapping), not by proof",
+        "walk_sane (a decidable sanity condition on the analyzer's walk) is a hypothesis of the nesting theorems, not "
+        "derived from wf_schema; Coq evaluates all guards on every generated case (guards => property held; "
+        "narrowness measured)",
     ],
     "assumptions": ["type / index values are str; no explicit None values; sub-fields carry no explicit empty "
                     "properties", "query word without wildcard characters; unnamed query nodes",
